@@ -165,7 +165,15 @@ func init() {
 		return mkStr(out)
 	}
 	verifRT["verifChoice"] = func(fr *frame, fn *ssa.Function, args []value) value {
-		return fr.i.p.Choice(args[0].(string), int(asInt64(args[1])))
+		// A named choice has one value per path, as it has one value in the replayed model:
+		// asking again under the same name returns what was chosen.
+		name, n := args[0].(string), int(asInt64(args[1]))
+		if name != "" {
+			if v, ok := fr.i.p.choices[name]; ok && int(v) < n {
+				return int(v)
+			}
+		}
+		return fr.i.p.Choice(name, n)
 	}
 	verifRT["verifAssume"] = func(fr *frame, fn *ssa.Function, args []value) value {
 		t, _, _ := termOf(fr.f(), args[0])
